@@ -221,6 +221,9 @@ def marker_faults(idl, sname, d, where=None):
             continue
         bt, inner = base_type(idl, f["type"])
         if isinstance(v, bool):
+            if bt != "bool":
+                out.append("%s.%s: declared %s, holds a Python bool (written with the BOOL wire type)" % (
+                    where, f["name"], f["type"]))
             continue
         if bt == "i32" and isinstance(v, int):
             if not (all32 or f["id"] in listed):
